@@ -234,4 +234,6 @@ def spines(**kw):
         out.append("%s(%s(%s(l,l),l),l)" % ks)
     for ks in itertools.product("COR", repeat=4):
         out.append("%s(%s(%s(l,%s(l,l)),l),l)" % ks)
+    # a machine needs at least one composite region (static_assert of the library)
+    out = [d for d in out if any(ch in d for ch in "CRSUN")]
     return [Prog("spine_%03d" % i, d, **kw) for i, d in enumerate(out)]
